@@ -156,3 +156,44 @@ def validate_task(wrapper, rec):
         if task.sense is not mosek.objsense.maximize:
             F("mosek_objective_sense", "objective sense is %r" % task.sense)
     return findings, info
+
+
+def validate_heuristic(wrapper, rec, weight):
+    """After heuristic(W): the problem handed to the solver must be  minimise <W, G>  over the ORIGINAL constraints plus the
+    row objective >= optimum - tol.  Returns findings."""
+    findings = []
+
+    def F(key, what):
+        findings.append({"key": key, "what": what, "grade": "violated"})
+
+    W = (np.asarray(weight, dtype=float) + np.asarray(weight, dtype=float).T) / 2
+    name = type(wrapper).__name__
+    if name == "MosekWrapper":
+        import mosek
+        task = wrapper.task
+        rows, c, C = task.dense()
+        if task.sense is not mosek.objsense.minimize:
+            F("heuristic_objective_sense:mosek", "objective sense after heuristic() is %r" % task.sense)
+        if np.any(c != 0):
+            F("heuristic_objective_has_linear_part:mosek", "the heuristic objective still has coefficients on scalar variables %s" % np.nonzero(c)[0].tolist())
+        C0 = C.get(0, np.zeros_like(W))
+        if any(np.any(M != 0) for j, M in C.items() if j != 0):
+            F("heuristic_objective_on_lmi_variable:mosek", "the heuristic objective involves an LMI matrix variable")
+        if not _close(C0, W, 1e-9):
+            F("heuristic_weights_wrong:mosek", "the matrix of the heuristic objective differs from the weight W handed to heuristic() by %.3e "
+              "(relative %.3e)" % (np.max(np.abs(C0 - W)), np.max(np.abs(C0 - W)) / max(np.max(np.abs(W)), 1e-300)))
+    elif name == "CvxpyWrapper":
+        n = W.shape[0]
+        rng = np.random.RandomState(0)
+        P_ = rng.randn(n, n)
+        Gv = P_.T @ P_
+        wrapper.G.value = Gv
+        obj = wrapper.prob.objective
+        val = float(np.asarray(obj.args[0].value).ravel()[0])
+        want = float(np.sum(W * Gv))
+        if type(obj).__name__ != "Minimize" or abs(val - want) > 1e-9 * (1 + abs(want)):
+            F("heuristic_weights_wrong:cvxpy", "the heuristic objective evaluates to %.9g at a random Gram matrix, <W, G> = %.9g" % (val, want))
+        if len(wrapper.prob.constraints) != len(wrapper._list_of_solver_constraints) or \
+                any(a is not b for a, b in zip(wrapper.prob.constraints, wrapper._list_of_solver_constraints)):
+            F("heuristic_problem_constraints_differ:cvxpy", "the heuristic problem does not hold the emitted constraint list")
+    return findings
